@@ -52,7 +52,9 @@ pub(crate) fn error_after_read_term<R>(
     prior_num_lines_read: usize,
     parser: &Parser<R>,
 ) -> CompilationError {
-    if err.is_unexpected_eof() {
+    // layout text and comments in front of the end of the input are not
+    // the beginning of a term: the read answers end_of_file.
+    if err.is_unexpected_eof() && !parser.lexer.eof_before_token {
         let location = &parser.lexer.location;
 
         // rough overlap with errors 8.14.1.3 k) & l) of the ISO standard here
